@@ -105,6 +105,7 @@ class Renderer:
                     self.main = p["l"]
         self.emissions = []
         accs = set()
+        raw = []
         for cs in b.calls():
             if cname(cs.node) == "std::string::String::push_str":
                 p = mir.op_place(cs.node["args"][0])
@@ -113,8 +114,33 @@ class Renderer:
                     self.problems.append("push_str onto something that is not a local String at %s" % cs.loc())
                     continue
                 v = strip(term_of(b, cs.node["args"][1]), mir.TRANSPARENT_CALLS + ("std::hint::must_use",))
-                self.emissions.append(Emission(cs, root["l"], v))
+                raw.append((cs, root["l"], v))
                 accs.add(root["l"])
+        for cs, acc, v in raw:
+            if v[0] == "local" and v[1] not in accs:
+                # a line built in several alternatives (e.g. `let line = match .. { .. => format!(..), .. }`) and pushed once:
+                # one emission per alternative, located where the alternative is built
+                alts = []
+                for d in b.defs().get(v[1], []):
+                    if d.si is None:
+                        t = strip(term_of(b, d.node["dest"]), mir.TRANSPARENT_CALLS + ("std::hint::must_use",)) if False else \
+                            ("call", mir._norm(d.node["callee"].get("path", "")), [term_of(b, a) for a in d.node["args"]], d)
+                        t = strip(t, mir.TRANSPARENT_CALLS + ("std::hint::must_use",))
+                    elif d.node["k"] == "assign" and d.node["rv"]["k"] == "use":
+                        t = strip(term_of(b, d.node["rv"]["op"]), mir.TRANSPARENT_CALLS + ("std::hint::must_use",))
+                    else:
+                        t = None
+                    if t is not None and fmt.format_of(t) is not None:
+                        alts.append((d, t))
+                    else:
+                        alts = None
+                        break
+                if alts:
+                    for d, t in alts:
+                        site = d if d.si is None else mir.Site(b, d.bb, None)
+                        self.emissions.append(Emission(site, acc, t))
+                    continue
+            self.emissions.append(Emission(cs, acc, v))
         for cs in b.calls():
             if cname(cs.node) == "std::fmt::Write::write_fmt" and arg_ty(b, cs.node["args"][0]).get("adt") == "std::string::String":
                 p = mir.op_place(cs.node["args"][0])
